@@ -54,7 +54,7 @@ func main() {
 		fmt.Fprintln(os.Stderr, "strprobe: -pid must be C11 or C12")
 		os.Exit(2)
 	}
-	n := 8400
+	n := 10500
 	switch *tier {
 	case "quick":
 	case "thorough":
